@@ -149,7 +149,7 @@ def gen_case(rng, widen=False):
 
 
 def gen_cases(ctx):
-    return [gen_case(ctx.rng, ctx.widen) for _ in range(ctx.budget(400, 7200))]
+    return [gen_case(ctx.rng, ctx.widen) for _ in range(ctx.budget(320, 3600))]
 
 
 # ------------------------------------------------------------------------------------------------
